@@ -14,6 +14,7 @@
 (*   - bytes reach the caller's writer only while the writer is the         *)
 (*     caller's; a failed try adds nothing                    (C13, C09)   *)
 (*   - an execution starts and ends with a clean Runtime          (C10)    *)
+(*   - isset that swallows a failure resumes normal rendering               *)
 (* Traces of many executions are concatenated (exec.found restarts).       *)
 (***************************************************************************)
 EXTENDS Integers, Sequences, TLC, Json
@@ -97,6 +98,11 @@ Step ==
        [] e.ev \in {"text", "render", "assign", "return", "range.iter", "try.commit"} ->
             /\ mode = "run" /\ OutOK(e)
             /\ UNCHANGED <<stack, mode>> /\ lastout' = e.outlen
+       [] e.ev = "isset.recover" ->
+            \* isset swallowed a failure: the deferred ends seen so far have already removed the abandoned
+            \* frames (an exec / include inside isset ends by defer); rendering goes on normally
+            /\ mode \in {"run", "unwind"} /\ OutOK(e)
+            /\ mode' = "run" /\ UNCHANGED stack /\ lastout' = e.outlen
        [] e.ev = "raise" -> UNCHANGED <<stack, mode, lastout>>
 
 Spec == Init /\ [][Step]_vars
